@@ -72,7 +72,7 @@ def struct_pack(I, args, kwargs):
             if concrete_int(b.length) != w:
                 if I.path.branch(to_z3_int(b.length) != w):
                     raise Undecided("struct 's' field of wrong length (pad/truncate not modelled)")
-                b = SBytes(b.arr, w)
+                b = SBytes(b.arr, w, b.off)
             piece = b
         else:
             if not is_intlike(v):
@@ -115,7 +115,7 @@ def struct_unpack(I, args, kwargs):
         if kind == "s":
             out.append(sb_slice(b, off, off + w))
         else:
-            cells = [z3.simplify(z3.Select(b.arr, off + i)) for i in range(w)]
+            cells = [z3.simplify(b.at(off + i)) for i in range(w)]
             if all(z3.is_int_value(c) for c in cells):
                 out.append(int.from_bytes(bytes(c.as_long() for c in cells), "big"))
                 off += w
@@ -260,7 +260,7 @@ def file_method(I, f, name):
         else:
             n = avail
         n = norm_int(n)
-        data = sb_slice(SBytes(st.content, st.length), f.pos, norm_int(pos + to_z3_int(n)))
+        data = SBytes(st.content, n, f.pos)
         f.pos = norm_int(pos + to_z3_int(n))
         cn = concrete_int(n)
         if cn == 0:
@@ -283,7 +283,7 @@ def file_method(I, f, name):
             return 0
         j = z3.Int(fresh_name("w"))
         # POSIX: a gap between the old end and pos reads as zeros
-        newc = z3.Lambda([j], z3.If(z3.And(j >= pos, j < pos + dl), z3.Select(b.arr, j - pos),
+        newc = z3.Lambda([j], z3.If(z3.And(j >= pos, j < pos + dl), b.at(j - pos),
                                    z3.If(z3.And(j >= ln, j < pos), z3.IntVal(0), z3.Select(st.content, j))))
         # writing zero bytes changes nothing (no extension)
         st.content = z3.If(dl > 0, newc, st.content) if concrete_int(dl) is None else newc
@@ -356,6 +356,91 @@ def m_stat(I, args, kwargs):
 class StatResult(object):
     def __init__(self, size):
         self.st_size = size
+
+    def getitem(self, idx):
+        import stat as _stat
+        if idx == _stat.ST_SIZE:
+            return self.st_size
+        raise Undecided("os.stat field %r" % (idx,))
+
+
+def _pname(p):
+    if isinstance(p, PathTok):
+        return p.name
+    if isinstance(p, str):
+        return p
+    if isinstance(p, bytes):
+        return p.decode("latin-1")
+    if isinstance(p, SStr):
+        return "<%s>" % z3.simplify(p.term).sexpr()
+    if isinstance(p, Opaque):
+        return "<%s>" % p.name
+    raise Undecided("path component %r" % (p,))
+
+
+def m_path_join(I, args, kwargs):
+    if all(isinstance(a, str) for a in args):
+        return _os.path.join(*args)
+    return PathTok("/".join(_pname(a) for a in args))
+
+
+def m_path_dirname(I, args, kwargs):
+    if isinstance(args[0], str):
+        return _os.path.dirname(args[0])
+    n = _pname(args[0])
+    return PathTok(n.rsplit("/", 1)[0] if "/" in n else "")
+
+
+def m_path_split(I, args, kwargs):
+    if isinstance(args[0], str):
+        return _os.path.split(args[0])
+    n = _pname(args[0])
+    if "/" in n:
+        a, b = n.rsplit("/", 1)
+        return (PathTok(a), b)
+    return (PathTok(""), n)
+
+
+def m_path_basename(I, args, kwargs):
+    return m_path_split(I, args, kwargs)[1]
+
+
+def m_listdir(I, args, kwargs):
+    """directory listing: names of existing modelled files directly under the directory, plus whatever the
+    contract declares through cfg['listdir'](I, key)."""
+    key = path_key(args[0])
+    h = I.cfg.get("listdir")
+    if h is not None:
+        return h(I, key)
+    names = sorted(k[len(key) + 1:] for k, st in I.disk.items() if st.exists and k.startswith(key + "/") and "/" not in k[len(key) + 1:])
+    return names
+
+
+def m_rmdir(I, args, kwargs):
+    h = I.cfg.get("rmdir")
+    if h is not None:
+        return h(I, path_key(args[0]))
+    key = path_key(args[0])
+    if any(st.exists and k.startswith(key + "/") for k, st in I.disk.items()):
+        raise PyRaise(SObj(OSError, {"args": ("directory not empty",)}))
+    I.ghost.setdefault("rmdir", []).append(key)
+    return None
+
+
+def m_make_dirs(I, args, kwargs):
+    I.ghost.setdefault("make_dirs", []).append(path_key(args[0]))
+    return None
+
+
+def m_rename(I, args, kwargs):
+    src, dst = path_key(args[0]), path_key(args[1])
+    st = disk_get(I, src)
+    if not st.exists:
+        raise PyRaise(SObj(FileNotFoundError, {"args": (src,)}))
+    I.disk[dst] = FileState(st.content, st.length, True)
+    st.exists = False
+    crash_point(I, "rename", dst)
+    return None
 
 
 def ctx_enter(I, cm):
@@ -995,7 +1080,15 @@ def build_table():
         _struct.pack: struct_pack, _struct.unpack: struct_unpack, _struct.calcsize: struct_calcsize,
         _os.path.exists: m_exists, _os.path.getsize: m_getsize, _os.unlink: m_unlink, _os.remove: m_unlink,
         _os.stat: m_stat, _time.time: m_time,
+        _os.path.join: m_path_join, _os.path.dirname: m_path_dirname, _os.path.split: m_path_split,
+        _os.path.basename: m_path_basename, _os.listdir: m_listdir, _os.rmdir: m_rmdir, _os.rename: m_rename,
     }
+    try:
+        from allmydata.util import fileutil
+        t[fileutil.make_dirs] = m_make_dirs
+        t[fileutil.rename] = m_rename
+    except Exception:
+        pass
     try:
         from allmydata.util import assertutil
         t[assertutil.precondition] = m_precondition
